@@ -16,6 +16,7 @@ EXPLANATION = ("Protocol shape + classification of every wake decision, decided 
                "findings, DESIGN 5-D4); (R04.6) every implemented accept entry point reaches a wake site. Every channel's register_stream_waker / keep_stream_running forward to the manager with the same id / waker (R04.1).")
 EXPLANATION += " R04.2 also requires every store into the wakers table to happen with wakers_lock held and every function of the streams manager to return with no spin lock held; R04.5 rejects a wake that sits on the is-the-sentinel side of an end-of-list test and, for entry points that only wake unconditionally, requires one of those wakes to follow a SUCCESSFUL publication; (R04.7) the wake primitive is complete: wake_stream returns only after waking the waker registered under the id it was given or after finding that slot empty under wakers_lock (no early-out on a busy lock / coalescing flag / count); (R04.8) the rings report the reservation's length-before + 1 on acceptance (the lengths the wake guards are judged against)."
 EXPLANATION += ' Lengths handed across layers (what leak_slot_internal / publish_movable / the report_len callback answer) are not assumed to mean "before" or "after": their offset from the true queue length is inferred from the producing code (len_offset) and the wake guards / targets are evaluated against it; R04.8 requires the reported length to be the reservation\'s length + 1 wherever the 1 is added, exactly once. For the log channel the class-A sweep must read the listener list / count AFTER the publication.'
+EXPLANATION += " A listed heuristic entry point is not a free pass: known_findings.json records, per listed entry point, which stream is woken for which (MAX_STREAMS, queue length) -- evaluated from the guards and targets, so refactor-proof; the check requires today's table to be a superset (waking more is fine, a wake that disappears for some length / MAX_STREAMS is a new violation: heuristic-wake-not-weakened)."
 ASSUMPTIONS = ["executors honour the Waker contract (a woken task is re-polled)",
                "class C sites are reported as findings: that they lose a wake-up in one particular run is not decided",
                "class B relies on the full-sync containers computing the returned length inside their critical section (C02 R02.4)"]
